@@ -1,4 +1,17 @@
 """What MANIFEST.json claims, per property.  Edited as checks are built."""
 HOOK_COMMITS = []
 NOT_APPLICABLE = {}
-CLAIMS = {}
+CLAIMS = {
+    "C05": dict(
+        text="TLC model-checks spec/TimeSchemes.tla (the eight algorithms written from their documented definitions over exact rationals; "
+        "invariants: discrete equation of motion on free dofs, documented update relations, exact energy conservation for average-acceleration "
+        "Newmark and midpoint, dissipation for backward Euler, hht/newmark/midpoint family relations) exhaustively over a parameter lattice; every "
+        "TLC behaviour (one-step lattice and multi-step algorithm/step-size switching histories) is replayed through the real Solve() in direct and "
+        "Newton mode and u, v, a, the K/C/M weights and the evaluation-point states are compared with TLC's rationals after every step.",
+        note="Trusted: TLC, the transcription of the AlgoType docstrings into TimeSchemes.tla, float-vs-rational comparison at 1e-10*scale. K, C, M are "
+        "prescribed 2x2 matrices through a _Simu subclass (element integration is covered by C01/C02/C03). Lattice-to-all-inputs by the affine/rational-"
+        "function argument of DESIGN.md section 4.",
+        technique="TLA+ spec of the schemes over exact rationals, TLC exhaustive; TLC behaviours replayed into Solve() (direction A)",
+        design_ref="DESIGN.md 6/C05",
+    ),
+}
